@@ -47,6 +47,9 @@ def run(repo: Repo, rep, tier: str):
     from . import c18
     c18.single_writer(repo, rep, "C09")
     c18.restore_rule(repo, rep, "C09")
+    # a fresh MetaModule gets fresh user-defined controllers (their range/default are re-derived per instance)
+    from . import c15
+    c15.user_defined_fresh(repo, rep, "C09", "R6")
 
 
 # ------------------------------------------------------------------------------------ R1
@@ -300,10 +303,11 @@ def defaults(repo: Repo, rep, P: str):
     dis, counts, _ = specdiff.diff_all(repo)
     n = 0
     for d in dis:
-        if d.category == "controller":
+        if d.category in ("controller", "enum"):
             n += 1
+            what = "controller metadata" if d.category == "controller" else "the members of an enumeration (a controller's value domain)"
             rep.violation(f"{P}.R5", d.construct, f"{d.mtype}.{d.path}",
-                          f"controller metadata differs from the specification: spec {d.expected!r}, class {d.actual!r}", d.where)
+                          f"{what} differs from the specification: spec {d.expected!r}, class {d.actual!r}", d.where)
     if n == 0:
         rep.ok(f"{P}.R5", "rv/modules/base/*.py", f"{counts['controllers']} controllers", "kind, bounds, default and order equal the YAML")
     rep.count("controllers_compared_with_spec", counts["controllers"], 502)
